@@ -382,7 +382,7 @@ func c04Drive(s *c04Stream, cs c04Case) (obs c04Obs) {
 	ctx := context.Background()
 	var conn *websocket.Conn
 	obs.panicked = fw.Recover(func() {
-		conn = websocket.VerifNewConn(script, cs.Client, xportComp(s.spec.Comp), 0)
+		conn = websocket.VerifNewConn(script, cs.Client, xportComp(s.spec.Comp, cs.Client), 0)
 		switch cs.API {
 		case c04APIReader:
 			obs.xportObs = xportReadAll(ctx, conn, cs.Buf)
